@@ -62,7 +62,7 @@ SideEffect(i, e) == IF Comp(e) THEN CompChk(obj[i], Items(obj[i]), e.cent) /\ Co
 
 TBegin == IsEvent("Begin") /\ LET e == Log[l] IN
             /\ obj' = <<>> /\ blob' = <<>> /\ cst' = [zero |-> e.zero, one |-> e.one]
-            /\ stat' = [sum |-> 0, probes |-> 0, trials |-> 0]
+            /\ stat' = [sum |-> 0, probes |-> 0, trials |-> 0, wide |-> <<>>]
 TNew == IsEvent("New") /\ LET e == Log[l] IN
             /\ New(e.id, e.k, e.cap) /\ Scalars(e, obj'[e.id]) /\ UNCHANGED <<blob, cst, stat>>
 
@@ -174,8 +174,8 @@ SumRatio(errs, q4, k, n, x) == IF x > Len(errs) THEN 0 ELSE Ratio100(errs[x], q4
 TTrial == IsEvent("Trial") /\ LET e == Log[l] IN
             /\ Chk("accuracy-cap", \A x \in 1..Len(e.q4) : /\ Ratio100(e.rerr7[x], e.q4[x], e.k, e.n) <= 4000
                                                             /\ Ratio100(e.qerr7[x], e.q4[x], e.k, e.n) <= 4000)
-            /\ stat' = [sum |-> stat.sum + SumRatio(e.rerr7, e.q4, e.k, e.n, 1) + SumRatio(e.qerr7, e.q4, e.k, e.n, 1),
-                        probes |-> stat.probes + 2 * Len(e.q4), trials |-> stat.trials + 1]
+            /\ stat' = [stat EXCEPT !.sum = @ + SumRatio(e.rerr7, e.q4, e.k, e.n, 1) + SumRatio(e.qerr7, e.q4, e.k, e.n, 1),
+                                    !.probes = @ + 2 * Len(e.q4), !.trials = @ + 1]
             /\ UNCHANGED <<obj, blob, cst>>
 \* mean normalized error <= 2.5: calibrated mean 0.45 (sd 0.9 per probe, <= 1.2 per trial mean) + 6 standard errors of a
 \* mean over >= 40 trials (6 * 1.2 / sqrt(40) = 1.14) + slack 0.9
@@ -184,8 +184,58 @@ TVerdict == IsEvent("Verdict") /\
             /\ Chk("accuracy-mean", stat.sum <= 250 * stat.probes)
             /\ UNCHANGED <<obj, blob, cst, stat>>
 
-TInit == obj = <<>> /\ l = 1 /\ blob = <<>> /\ cst = [zero |-> 0, one |-> 0] /\ stat = [sum |-> 0, probes |-> 0, trials |-> 0]
+(***************************************************************************)
+(* Wide counters: total weight driven past 2^32 by merge doublings.  The   *)
+(* weights no longer fit TLC integers, so these sketches are tracked by a  *)
+(* reduced model stat.wide[id] = [k, cap, total, minD, maxD] with limb     *)
+(* arithmetic: total weight exact (= sum of the logged centroid weights +  *)
+(* buffered), extremes exact, capacity, and the C09 clauses.               *)
+(***************************************************************************)
+WideOK(e, w) ==
+  /\ Chk("total-weight", e.total = w.total)
+  /\ Chk("weight-sum", WAdd(WSum(e.cw), WOfInt(e.nb)) = e.total)
+  /\ Chk("weights-positive", \A j \in 1..Len(e.cw) : e.cw[j][1] + e.cw[j][2] > 0)
+  /\ Chk("min", (w.total # <<0, 0>>) => e.min = w.minD)
+  /\ Chk("max", (w.total # <<0, 0>>) => e.max = w.maxD)
+  /\ Chk("centroid-bound", Len(e.cw) <= w.cap)
+TWNew == IsEvent("WNew") /\ LET e == Log[l] IN
+            /\ stat' = [stat EXCEPT !.wide = (e.id :> [k |-> e.k, cap |-> e.cap, total |-> <<0, 0>>, minD |-> 0, maxD |-> 0]) @@ @]
+            /\ UNCHANGED <<obj, blob, cst>>
+\* op "update": the values vs are accepted; "merge": merge(src) - src may be a copy of the sketch itself (doubling)
+TWStep == IsEvent("WStep") /\ LET e == Log[l]  w == stat.wide[e.id]
+                                  nw == IF e.op = "update"
+                                        THEN [w EXCEPT !.total = WAdd(@, WOfInt(Len(e.vs))),
+                                                       !.minD = IF w.total = <<0, 0>> THEN MinSeq(e.vs) ELSE Min2(@, MinSeq(e.vs)),
+                                                       !.maxD = IF w.total = <<0, 0>> THEN MaxSeq(e.vs) ELSE Max2(@, MaxSeq(e.vs))]
+                                        ELSE LET o == stat.wide[e.src] IN
+                                             [w EXCEPT !.total = WAdd(@, o.total),
+                                                       !.minD = IF w.total = <<0, 0>> THEN o.minD ELSE IF o.total = <<0, 0>> THEN @ ELSE Min2(@, o.minD),
+                                                       !.maxD = IF w.total = <<0, 0>> THEN o.maxD ELSE IF o.total = <<0, 0>> THEN @ ELSE Max2(@, o.maxD)] IN
+            /\ WideOK(e, nw)
+            /\ stat' = [stat EXCEPT !.wide = [@ EXCEPT ![e.id] = nw]]
+            /\ UNCHANGED <<obj, blob, cst>>
+TWCopy == IsEvent("WCopy") /\ LET e == Log[l] IN
+            /\ WideOK(e, stat.wide[e.src])
+            /\ stat' = [stat EXCEPT !.wide = (e.dst :> stat.wide[e.src]) @@ @]
+            /\ UNCHANGED <<obj, blob, cst>>
+TWSer == IsEvent("WSer") /\ LET e == Log[l] IN
+            /\ WideOK(e, stat.wide[e.src])
+            /\ Chk("C09:bytes=stream", e.img = e.simg)
+            /\ Chk("C09:advertised-size", e.size = e.advertised)
+            /\ blob' = (e.blob :> [w |-> stat.wide[e.src], cw |-> e.cw, nb |-> e.nb, img |-> e.img, size |-> e.size]) @@ blob
+            /\ UNCHANGED <<obj, cst, stat>>
+TWDeser == IsEvent("WDeser") /\ LET e == Log[l]  b == blob[e.blob] IN
+            /\ Chk("C17:total-weight-wide", e.total = b.w.total)       \* (weight conservation is C17's clause, also through an image)
+            /\ Chk("C09:centroid-weights-wide", e.cw = b.cw /\ e.nb = b.nb)
+            /\ WideOK(e, b.w)
+            /\ Chk("C09:consumed", e.consumed = b.size)
+            /\ Chk("C09:reserialize", e.reimg = b.img)
+            /\ stat' = [stat EXCEPT !.wide = (e.dst :> b.w) @@ @]
+            /\ UNCHANGED <<obj, blob, cst>>
+
+TInit == obj = <<>> /\ l = 1 /\ blob = <<>> /\ cst = [zero |-> 0, one |-> 0] /\ stat = [sum |-> 0, probes |-> 0, trials |-> 0, wide |-> <<>>]
 TNext == TBegin \/ TNew \/ TUpdate \/ TUpdateNaN \/ TUpdateInf \/ TCompress \/ TMerge \/ TRankGrid \/ TQuantGrid \/ TCdf
          \/ TEmptyQuery \/ TBadQuery \/ TObs \/ TCopy \/ TSer \/ TDeser \/ TTwin \/ TRefImage \/ TTrial \/ TVerdict
+         \/ TWNew \/ TWStep \/ TWCopy \/ TWSer \/ TWDeser
 TSpec == TInit /\ [][TNext]_tvars
 ====
